@@ -161,6 +161,14 @@ def family(seed, count):
             out.append({"a": ("", body_a), "b": ("", ("alt", [("ref", "c"), L("x")])), "c": ("", ("seq", [("ref", "b"), L("y")]))})
             out.append({"a": ("", body_a), "b": ("", ("seq", [("op", "?", L("x")), ("ref", "c")])), "c": ("", ("alt", [("seq", [("ref", "b"), L("y")]), L("z")]))})
             out.append({"a": ("", ("alt", [body_a, L("v")])), "d": ("", ("ref", "b")), "b": ("", ("alt", [("ref", "c"), L("x")])), "c": ("", ("seq", [("ref", "d"), L("y")]))})
+    # the deciding rule sits behind a long chain of references (the checks recurse through rule references)
+    for depth in (33, 40, 70):
+        chain = {f"k{i}": ("_", ("ref", f"k{i + 1}")) for i in range(depth)}
+        out.append({"a": ("", ("seq", [L("x"), ("op", "*", ("ref", "k0")), L("y")])), **chain, f"k{depth}": ("_", ("op", "?", L("z")))})
+        out.append({"a": ("", ("seq", [("ref", "k0"), ("ref", "a")])), **chain, f"k{depth}": ("_", ("op", "?", L("z")))})
+        out.append({"a": ("", ("seq", [L("x"), L("y")])), "WHITESPACE": ("_", ("ref", "k0")), **chain, f"k{depth}": ("_", ("op", "?", L(" ")))})
+        cyc = {f"k{i}": ("", ("alt", [("ref", f"k{(i + 1) % depth}"), L("z")])) for i in range(depth)}
+        out.append({"a": ("", ("seq", [L("x"), ("ref", "k0")])), **cyc})
     # left recursion through a rule that redefines a non-keyword built-in name
     for nm in ("NEWLINE", "ASCII_DIGIT", "LETTER", "NUMBER", "ASCII_ALPHA"):
         out.append({nm: ("", ("alt", [("seq", [("ref", nm), L("+"), L("x")]), L("x")])), "b": ("", L("y"))})
